@@ -15,32 +15,41 @@ CVC5 = "/usr/bin/cvc5"
 _STRING_HINT = re.compile(r"(\bString\b|\bstr\.|\bre\.)")
 
 
-def _z3_solve(smt2, timeout_ms, want_model):
-    import z3
+Z3 = "z3-new"
 
-    s = z3.Solver()
-    s.set("timeout", timeout_ms)
-    try:
-        s.from_string(smt2)
-    except z3.Z3Exception as err:
-        return ("error", f"z3 parse: {err}", None)
+
+def _z3_solve(smt2, timeout_ms, want_model):
+    """z3 through its CLI: a hard wall-clock limit (the API's soft timeout is not always honoured by the
+    sequence solver)"""
+    text = smt2 + ("\n(get-model)\n" if want_model else "")
+    with tempfile.NamedTemporaryFile("w", suffix=".smt2", delete=False, dir=os.environ.get("PYVC_TMP")) as fh:
+        fh.write(text)
+        path = fh.name
     t0 = time.time()
-    r = s.check()
-    dt = time.time() - t0
-    if r == z3.unsat:
-        return ("unsat", dt, None)
-    if r == z3.sat:
-        model = {}
-        if want_model:
-            m = s.model()
-            for d in m.decls():
-                if d.arity() == 0:
-                    try:
-                        model[d.name()] = str(m[d])
-                    except Exception:  # pragma: no cover
-                        pass
-        return ("sat", dt, model)
-    return ("unknown", dt, s.reason_unknown())
+    secs = max(1, int(timeout_ms / 1000))
+    try:
+        out = subprocess.run([Z3, f"-T:{secs}", f"-t:{timeout_ms}", path], capture_output=True, text=True, timeout=secs + 10)
+        dt = time.time() - t0
+        lines = out.stdout.strip().splitlines()
+        first = lines[0].strip() if lines else ""
+        if first == "unsat":
+            return ("unsat", dt, None)
+        if first == "sat":
+            model = {}
+            for m in re.finditer(r"\(define-fun\s+(\S+)\s+\(\)\s+(?:\([^()]*\)|\S+)\s+([^\n]*?)\)\s*$", out.stdout, re.M):
+                model[m.group(1).strip("|")] = m.group(2).strip()
+            if not model:
+                for m in re.finditer(r"\(define-fun\s+(\S+)\s+\(\)\s+\S+\s*\n\s*(.*?)\)\s*$", out.stdout, re.M):
+                    model[m.group(1).strip("|")] = m.group(2).strip()
+            return ("sat", dt, model)
+        return ("unknown", dt, (out.stdout + out.stderr)[:200])
+    except subprocess.TimeoutExpired:
+        return ("unknown", time.time() - t0, "z3 hard timeout")
+    finally:
+        try:
+            os.unlink(path)
+        except OSError:
+            pass
 
 
 def _cvc5_solve(smt2, timeout_ms, want_model):
